@@ -43,8 +43,10 @@ package desync
 //@   ghost@entry $sent = 0
 //@   loop 2: invariant batch >= 0 && chunksNum == len(idx.Chunks) && i >= 0
 //@   loop 2: invariant ($sent == i && i <= chunksNum) || ($sent == chunksNum && i >= chunksNum)
-//@   assert@send:in i == $sent && i <= last && last < chunksNum && len(v) == last + 1 - i
-//@   ghost@send:in $sent = last + 1
+//# every batch handed to a worker is the next non-empty piece of the index: it starts where the previous one
+//# ended and stays inside the index (stated over the slice that is sent, not over how its bounds are computed)
+//@   assert@send:in base(v) == base(idx.Chunks) && off(v) == off(idx.Chunks) + $sent && len(v) >= 1 && $sent + len(v) <= len(idx.Chunks)
+//@   ghost@send:in $sent = $sent + len(v)
 //@   ensures r0 == nil ==> $sent == len(idx.Chunks)
 //@   ensures r0 == nil ==> fmode(statOf(name)) & 67108864 != 0 || fsize(statOf(name)) == indexLength(idx)
 //# worker: every batch whose iteration completes was validated chunk by chunk, and the
@@ -702,6 +704,24 @@ package desync
 //@   nochecks make
 //@   ensures r0 != nil && r0.pos == 0 && r0.curChunkIdx == 0 && r0.curChunkOffset == 0 && len(r0.curChunk) == 0
 //@   ensures wfPos(r0)
+//@   ensures fresh(r0)
+
+//# C09: every open of a mounted blob gets a reader (cursor + chunk cache) of its own, made by that open; the
+//# handle's lock therefore covers everything a read on it touches, whatever other handles are doing
+//@ func newIndexFileHandle
+//@   prop C09
+//@   safety none
+//# (the mounted index is well-formed and truthful: an assumption about what was mounted, stated at the call so
+//# that the contract does not depend on this helper's parameter list)
+//@   assume@before:NewIndexReadSeeker wfChunks($a0.Chunks) && truthful($a0.Chunks)
+//@   ensures fresh(r0) && fresh(r0.r)
+
+//@ owner @C09 indexFileHandle: r by newIndexFileHandle
+
+//@ func (n *indexFile) Open
+//@   prop C09
+//@   safety none
+//@   ensures r2 == 0 ==> is(r0, *indexFileHandle) && fresh(as(r0, *indexFileHandle)) && fresh(as(r0, *indexFileHandle).r)
 
 //@ func (f *indexFileHandle) read
 //@   prop C09
@@ -816,6 +836,8 @@ package desync
 //# below must hold for all header words. alloc: an input-derived allocation is at most 1 MiB.
 
 //@ ghost var $consumed int
+//@ ghost var $tlast error
+//@ ghost var $tlen int
 
 //@ func (r reader) ReadN
 //@   prop C19
@@ -836,7 +858,7 @@ package desync
 //@   safety C19
 //@   checks alloc
 //@   requires $consumed >= 0
-//@   modifies d.advance, $consumed, $rp, $wn
+//@   modifies d.advance, $consumed, $rp, $wn, $tlast, $tlen
 //@   ensures $consumed >= old($consumed) && ($consumed == old($consumed) || $consumed < 1<<40)
 //# a decoded table or goodbye list is never longer than the input that was read for it
 //@   ensures r1 == nil && is(r0, FormatTable) ==> 40 * len(as(r0, FormatTable).Items) <= $consumed - old($consumed)
@@ -855,11 +877,22 @@ package desync
 //@   loop 2: invariant 40 * len(items) <= $consumed - old($consumed) && $consumed >= old($consumed) && ($consumed == old($consumed) || $consumed < 1<<40)
 //@   loop 2: invariant @C04 d.advance == nil ==> $rp == old($rp) + 16 + 40*len(items) && hdr.Size == $r[old($rp)] && hdr.Type == $r[old($rp)+8] && \
 //@       forall k int :: 0 <= k && k < len(items) ==> $r[old($rp)+16+40*k] == items[k].Offset && items[k].Offset != 0 && $rid[old($rp)+24+40*k] == items[k].Chunk
+//# C04, the other direction: a chunk table is refused only because reading failed or because its input words
+//# are malformed - size word not MAX_UINT64, second zero fill not zero, tail marker missing. In particular a
+//# well-formed table with any number of items, none included, is accepted (what WriteTo writes reads back).
+//@   ghost@entry $tlast = nil
+//@   ghost@entry $tlen = 0
+//@   ghost@after:ReadHeader $tlast = $r1
+//@   ghost@after:ReadUint64 $tlast = $r1
+//@   ghost@after:ReadID $tlast = $r1
+//@   ghost@loop2.break $tlen = len(items)
+//@   ensures @C04 old(d.advance) == nil && $r[old($rp)+8] == CaFormatTable && r1 != nil && r1 != $tlast ==> \
+//@       $r[old($rp)] != 18446744073709551615 || $r[old($rp)+16+40*$tlen+8] != 0 || $r[old($rp)+16+40*$tlen+32] != CaFormatTableTailMarker
 
 //@ func (p *Protocol) ReadMessage
 //@   prop C19
 //@   checks alloc
-//@   modifies all, $consumed, $rp, $wn
+//@   modifies all, $consumed, $rp, $wn, $tlast, $tlen
 //@   ensures $consumed >= old($consumed)
 //@   ensures r1 == nil ==> len(r0.Body) + 16 <= $consumed - old($consumed)
 
@@ -867,7 +900,7 @@ package desync
 //@   prop C19 C04
 //@   checks alloc
 //@   requires $consumed >= 0
-//@   modifies all, $consumed, $items, $alg, $rp, $wn
+//@   modifies all, $consumed, $items, $alg, $rp, $wn, $tlast, $tlen
 //@   safety C19
 //@   ghost@after:Next $items = as($r0, FormatTable).Items
 //@   ensures @C04 err == nil ==> tableMatches(c.Chunks, $items)
@@ -892,7 +925,7 @@ package desync
 //@   checks alloc
 //@   requires $consumed >= 0
 //@   requires @C18 confined(a.dir)
-//@   modifies all, $consumed, $rp, $wn
+//@   modifies all, $consumed, $rp, $wn, $tlast, $tlen
 //@   ensures $consumed >= old($consumed)
 //@   ensures @C18 confined(a.dir) && (r1 == nil ==> nodeConfined(r0))
 //@   loop 1: invariant $consumed >= old($consumed) && confined(a.dir) && (name == "" || safeName(name))
@@ -1688,14 +1721,14 @@ package desync
 //@ func (p *Protocol) RequestChunk
 //@   prop C03
 //@   safety none
-//@   modifies all, $consumed, $rp, $wn
+//@   modifies all, $consumed, $rp, $wn, $tlast, $tlen
 //@   oncall NewChunkFromStorage: requires $arg0 == id && !$arg3
 //@   ensures @C03 r1 == nil ==> r0 != nil && r0.idCalculated && r0.id == id && H(plain(r0)) == id
 
 //@ func (r *RemoteSSH) GetChunk
 //@   prop C03
 //@   safety none
-//@   modifies all, $consumed, $rp, $wn
+//@   modifies all, $consumed, $rp, $wn, $tlast, $tlen
 //@   ensures @C03 r1 == nil ==> r0 != nil && r0.idCalculated && r0.id == id && H(plain(r0)) == id
 
 // ---------------------------------------------------------------------------------------------
@@ -2023,8 +2056,24 @@ package desync
 //# the parallel file chunker is outside the reach of these contracts (see C02); for callers it is a function
 //# that reads a file and returns an index, without touching the caller's data structures
 //@ func IndexFromFile
-//@   trusted
+//@   prop C07
+//@   safety none
+//@   trusted ensures
 //@   pure
+//# C07, the collector (the chunking workers themselves stay outside, see C02): a nil error is returned only after
+//# every bucket up to and including the one of the worker that reached the end of the stream was drained until its
+//# worker closed it, every chunk taken from a bucket went into the index, and none of those workers had an error.
+//# A worker that is interrupted records Interrupted{} before closing its bucket, so draining to the end is what
+//# makes "nil" mean "complete".
+//@   assume@entry $consumed >= 0
+//@   ghost@entry $fed = 0
+//@   ghost@loop5.head $fed = $fed + 1
+//@   loop 4: invariant len(index.Chunks) == $fed
+//@   loop 5: invariant len(index.Chunks) == $fed
+//@   assert@loop5.break false
+//@   assert@loop4.iterend w.err == nil && !w.eof
+//@   assert@loop4.break w.err == nil && w.eof
+//@   ensures r2 == nil ==> len(r0.Chunks) == $fed
 
 //@ func NewProgressBar
 //@   trusted
